@@ -183,6 +183,34 @@ def run(ctx):
                 ctx.violation("monitor", "donor shortage surfaced as %r" % r["error"], {"case": "no-donor"})
         if r["children_after"] != 0:
             ctx.violation("monitor", "worker alive after the donor-shortage error", {"case": "no-donor"})
+        # donor shortage at the repopulation entry point: whenever the donors cannot serve every under-populated cluster
+        # (capacity sum(floor(size/m) - 1) over clusters with >= 2m points < number of clusters with < 2 points) the call
+        # must raise the RuntimeError - for every such size vector with K <= 4, sizes 0..3m+2, m in {1, 2}
+        import itertools
+        from .c08 import run_impl
+        nshort = 0
+        for m_ in (1, 2):
+            for K_ in range(1, 5):
+                for sizes in itertools.product(range(3 * m_ + 3), repeat=K_):
+                    under = sum(1 for s_ in sizes if s_ < 2)
+                    cap = sum(s_ // m_ - 1 for s_ in sizes if s_ >= 2 * m_)
+                    if sum(sizes) == 0 or under == 0 or cap >= under:
+                        continue
+                    labels = [k for k, s_ in enumerate(sizes) for _ in range(s_)]
+                    nshort += 1
+                    if not ctx.thorough and nshort % 3:
+                        continue
+                    ctx.count("donor-shortage")
+                    try:
+                        r_ = run_impl(K_, m_, labels, list(range(K_, 0, -1)), seed=nshort)
+                    except Exception as e:  # noqa
+                        ctx.violation("monitor", "donor shortage surfaces as %s: %s instead of the RuntimeError" % (type(e).__name__, e), {"K": K_, "m": m_, "sizes": list(sizes)})
+                        continue
+                    if r_["out"] is not None:
+                        ctx.violation("monitor", "repopulation returned a labelling although the donors cannot serve all %d under-populated clusters (capacity %d)" % (under, cap),
+                                      {"K": K_, "m": m_, "sizes": list(sizes)})
+                    elif "donor" not in (r_["error"] or ""):
+                        ctx.violation("monitor", "donor shortage error does not name the shortage: %r" % r_["error"], {"K": K_, "m": m_, "sizes": list(sizes)})
         # wrong front end
         x = np.random.default_rng(0).normal(size=(30, 2))
         for name, call, other in (("ticc_labels(list)", lambda: front_end.ticc_labels([x, x], window_size=2, num_clusters=2), "ticc_joint_labels"),
